@@ -85,6 +85,21 @@ def main(argv=None) -> int:
         print(rec["path"], rec["history"], rec["minimised"])
         print(json.dumps(rec["violation"], indent=1))
         return 1
+    if cmd == "reminimise":
+        # check reminimise <replay file>: re-run the file's configuration, minimise again, write a new file
+        import warnings
+        warnings.filterwarnings("ignore")
+        from sim import minimise, runner
+        rec = json.load(open(argv[1]))
+        m = runner.machine(rec["property"])
+        res = m.execute(rec["config"])
+        if not res.violations:
+            print("no violation")
+            return 0
+        out = minimise.minimise_and_write(rec["property"], rec["config"], res.violations[0].to_json(), budget=240, workers=16)
+        print(out["path"], out["history"], out["minimised"])
+        print(json.dumps(out["violation"], indent=1))
+        return 1
     if cmd == "selftest":
         from sim import selftest
         return selftest.main(argv[1:])
